@@ -201,6 +201,30 @@ let handle () =
      let np = nint () in let pat = rep np nbool in
      let bra = nvec () in let ket = nvec () in
      List.iter (fun c -> emit (sgz c)) (m_rdm norb sf pat bra ket)
+   | "PERSIST" ->
+     let frozen = nbool () in
+     let ndir = nnat () in let nfile = nnat () in let npool = nnat () in
+     let cwd0 = nnat () in let imp0 = nnat () in
+     let nops = nint () in
+     let nopt () = let t = nint () in if t < 0 then None else Some (nat_of_int t) in
+     let ops = rep nops (fun () ->
+       let tag = next () in
+       match tag with
+       | "chdir" -> let d = nnat () in Chdir d
+       | "save" -> let i = nnat () in let f = nnat () in let p = nopt () in Save (i, f, p)
+       | "read" -> let i = nnat () in let f = nnat () in let p = nopt () in Read (i, f, p)
+       | "trunc" -> let d = nnat () in let f = nnat () in let k = nnat () in Trunc (d, f, k)
+       | "mutate" -> let i = nnat () in let o = nnat () in Mutate (i, o)
+       | _ -> failwith ("persist op " ^ tag)) in
+     let ((res, recvs), files) = m_persist frozen ndir nfile npool cwd0 imp0 ops in
+     List.iter (fun b -> emit (sb b)) res; emit "|";
+     List.iter (fun x -> emit (string_of_int (int_of_nat x))) recvs; emit "|";
+     List.iter (fun ((d, f), c) ->
+         match c with
+         | None -> ()
+         | Some (x, t) -> emit (string_of_int (int_of_nat d)); emit (string_of_int (int_of_nat f));
+                          emit (string_of_int (int_of_nat x));
+                          emit (match t with None -> "-1" | Some k -> string_of_int (int_of_nat k))) files
    | "INNER" ->
      let norb = nnat () in let x = nvec () in let y = nvec () in
      emit (sgz (m_inner norb x y))
